@@ -11,7 +11,8 @@
 (* A tour has a focus chain X with its two ends e1 (clockwise, towards Y)  *)
 (* and e2 (counter-clockwise, towards Z) and exercises, with the three     *)
 (* protocols rotated over the roles:                                       *)
-(*   1. the same native token escrowed under BOTH ends of X;               *)
+(*   1. the same native token escrowed under BOTH ends of X, and a plain   *)
+(*      bank gift to one of the two escrow accounts;                       *)
 (*   2. twin sends that time out  (refund out of each end's own escrow);   *)
 (*   3. twin sends answered by error acknowledgements;                     *)
 (*   4. a height timeout (v1);                                             *)
@@ -65,8 +66,10 @@ StageActs(S0, X, v, st) ==
         DYZ == Dn(<<g2, f1>>, Base)      \* on Z, forwarded by Y over g1
         DZY == Dn(<<g1, f2>>, Base)      \* on Y, forwarded by Z over g2
         rl  == Rl(v + st)
-    IN CASE st = 1 -> << [a |-> "Fund", c |-> X, acct |-> "u1", base |-> Base, amt |-> 12, valid |-> TRUE] >>
+    IN CASE st = 1 -> << [a |-> "Fund", c |-> X, acct |-> "u1", base |-> Base, amt |-> 13, valid |-> TRUE] >>
+         \* (and a plain bank gift to one of the two escrow accounts: it stays there for ever)
          [] st = 2 -> Twin(S0, T(X, e1, P(v), "u1", "u2", D0, 3, "t"), T(X, e2, P(v + 1), "u1", "u2", D0, 3, "t"), << "Recv", "Ack" >>, rl)
+                      \o << [a |-> "BankSend", c |-> X, from |-> "u1", to |-> EscAcct(IF v % 2 = 0 THEN e2 ELSE e1), denom |-> D0, amt |-> 1] >>
          [] st = 3 -> TwinTimeout(S0, T(X, e1, P(v + 1), "u1", "u2", D0, 1, "t"), T(X, e2, P(v + 2), "u1", "u2", D0, 2, "t"), rl)
          [] st = 4 -> Twin(S0, T(X, e1, P(v + 2), "u1", "blk", D0, 2, "t"), T(X, e2, P(v), "u1", "blk", D0, 1, "t"), << "Recv", "Ack" >>, rl)
          [] st = 5 -> LET e == IF v % 2 = 0 THEN e1 ELSE e2 IN
@@ -98,7 +101,7 @@ TourOf(i) ==
     LET X == ChainSeq[(i % 3) + 1]   v == ((i \div 3) + i + Rot) % 3 IN
     CHOOSE x \in { [kind |-> "tour", uniq |-> FALSE, focus |-> X, rot |-> v, acts |-> r.acts,
                     ok |-> r.ok, home |-> (Bal(r.S, X, "u1", Dn(<<>>, Base)) = 12 /\ InFlightKeys(r.S) = {}
-                                           /\ (\A c \in Chains : \A k \in DOMAIN r.S.bal[c] : k[1] \notin EscAccts(c))
+                                           /\ (\A c \in Chains : \A k \in DOMAIN r.S.bal[c] : k[1] \in EscAccts(c) => r.S.bal[c][k] = Get(r.S.don[c], k))
                                            /\ StateInvariants(r.S))]
                    : r \in { Stages([S |-> InitState, acts |-> <<>>, ok |-> TRUE], X, v, 1) } } : TRUE
 
